@@ -291,6 +291,60 @@ const KINDS: [&str; 12] = [
 ];
 const MODES: [&str; 5] = ["append", "replace-noerror", "replace-nxdomain", "append+aa-flipped", "reown-genuine-records-to-victim"];
 
+
+/// Owner classes of the systematic (record type x owner) kinds, relative to the hostile zone.
+const OWNER_CLASSES: [&str; 7] = ["inside-hostile-zone", "hostile-apex", "parent-zone-apex", "grandparent-zone-apex", "sibling-of-hostile-zone", "victim-zone-apex", "unrelated-tld"];
+const OWNER_RTYPES: [&str; 3] = ["A", "NS+glue", "SOA"];
+/// kinds 0..FIXED_KINDS are the hand-picked bundles of `KINDS`; the rest is rtype x owner class
+const FIXED_KINDS: usize = 12;
+
+fn n_kinds() -> usize {
+    FIXED_KINDS + OWNER_RTYPES.len() * OWNER_CLASSES.len()
+}
+
+fn kind_name(k: usize) -> String {
+    if k < FIXED_KINDS {
+        KINDS[k].to_string()
+    } else {
+        let i = k - FIXED_KINDS;
+        format!("{}@{}", OWNER_RTYPES[i / OWNER_CLASSES.len()], OWNER_CLASSES[i % OWNER_CLASSES.len()])
+    }
+}
+
+/// The owner of class `c` for hostile zone `hz` (None where the class does not exist, e.g. the
+/// grandparent of a TLD).
+fn class_owner(hz: usize, c: usize) -> Option<Name> {
+    let (vz, _, _) = victims(hz);
+    match c {
+        0 => Some(own_name("in", hz)),
+        1 => Some(n(ZONE_NAMES[hz])),
+        2 => match hz {
+            T | O => Some(Name::root()),
+            LT => Some(n("t.")),
+            VO => Some(n("o.")),
+            _ => None,
+        },
+        3 => match hz {
+            LT | VO => Some(Name::root()),
+            _ => None,
+        },
+        4 => match hz {
+            T => Some(n("o.")),
+            O => Some(n("t.")),
+            LT => Some(n("sib.t.")),
+            VO => Some(n("sib.o.")),
+            _ => None,
+        },
+        5 => Some(n(ZONE_NAMES[vz])),
+        _ => Some(n("unrelated.example-tld.")),
+    }
+}
+
+/// Does kind `k` exist for hostile zone `hz`?
+fn kind_exists(hz: usize, k: usize) -> bool {
+    k < FIXED_KINDS || class_owner(hz, (k - FIXED_KINDS) % OWNER_CLASSES.len()).is_some()
+}
+
 /// (victim zone, victim's parent zone, sibling name outside the hostile zone)
 fn victims(hz: usize) -> (usize, usize, &'static str) {
     match hz {
@@ -320,6 +374,20 @@ fn injection(hz: usize, kind: usize, section: usize) -> Injection {
     let mut main: Vec<Record> = vec![];
     let mut extra_additional: Vec<Record> = vec![];
     match kind {
+        k if k >= FIXED_KINDS => {
+            let i = k - FIXED_KINDS;
+            let (rt, class) = (i / OWNER_CLASSES.len(), i % OWNER_CLASSES.len());
+            if let Some(owner) = class_owner(hz, class) {
+                match rt {
+                    0 => main.push(rec_a(&owner, Ipv4Addr::new(6, 6, 6, 90 + class as u8))),
+                    1 => {
+                        main.push(rec_ns(&owner, &evil));
+                        extra_additional.push(evil_glue);
+                    }
+                    _ => main.push(Record::from_rdata(owner, 60, RData::SOA(hickory_proto::rr::rdata::SOA::new(own_name("evil", hz), n("h.invalid."), 9, 60, 60, 60, 60)))),
+                }
+            }
+        }
         0 => main.push(rec_a(&n(&format!("www.{}", ZONE_NAMES[vz])), Ipv4Addr::new(6, 6, 6, 1))),
         1 => {
             main.push(rec_ns(&n(ZONE_NAMES[vz]), &evil));
@@ -852,7 +920,7 @@ impl CaseDesc {
             "graph": self.spec.to_json(),
             "limits": [self.limits.0, self.limits.1],
             "hostile_zone": self.hostile.map(|z| ZONE_NAMES[z]),
-            "injections": self.inj.iter().map(|(k, s)| json!({"kind": k, "kind_name": KINDS[*k], "section": s, "section_name": SECTIONS[*s]})).collect::<Vec<_>>(),
+            "injections": self.inj.iter().map(|(k, s)| json!({"kind": k, "kind_name": kind_name(*k), "section": s, "section_name": SECTIONS[*s]})).collect::<Vec<_>>(),
             "queries": self.queries.iter().map(|(a, b)| json!([a, b])).collect::<Vec<_>>(),
             "case_randomization": self.case_rand,
             "warm": self.warm,
@@ -1268,8 +1336,8 @@ fn main() {
     ctx.set_rule(
         "(A) zone graphs root/t./o./l.t./v.o. with every combination of NS styles (t.: in-zone+glue, in-zone-no-glue, sibling-glueless, in-child+glue; o.: in-zone+glue, sibling-glueless; \
          l.t.: in-zone+glue, no-glue, sibling-tld, sibling-leaf, parent-zone; v.o.: in-zone+glue, sibling-tld, sibling-leaf; 120 graphs incl. all mutual glueless cycles) x 1 (quick) / 1-2 (thorough) servers per zone \
-         x 12 queries (A, AAAA, NS, SOA, ANY, CNAME, DS; existing, missing, alias names) x limits {(4,4),(8,8),(24,24)}, honest; (B) every graph x hostile zone in {t., o., l.t., v.o.} (all its servers) x injection kind (12: victim A, victim-zone NS+glue, victim-parent NS+glue, root NS+glue, \
-         CNAME->victim + victim A, in-bailiwick A at a denied answer address, in-bailiwick NS + glue at a denied server address, sibling A, victim NS + victim glue, NS for the hostile zone's own names naming a victim-zone host + forged glue for it, victim CNAME, victim-zone SOA) x response mode {append; on graphs near the plain one (thorough: all single-server graphs) also: genuine records dropped with NOERROR / with NXDOMAIN, AA bit flipped, genuine records re-owned to the victim} x section {answer, authority, additional} added to EVERY response \
+         x 12 queries (A, AAAA, NS, SOA, ANY, CNAME, DS; existing, missing, alias names) x limits {(4,4),(8,8),(24,24)}, honest; (B) every graph (quick: the plain graph and the graphs one NS style away from it) x hostile zone in {t., o., l.t., v.o.} (all its servers) x injection kind (12: victim A, victim-zone NS+glue, victim-parent NS+glue, root NS+glue, \
+         CNAME->victim + victim A, in-bailiwick A at a denied answer address, in-bailiwick NS + glue at a denied server address, sibling A, victim NS + victim glue, NS for the hostile zone's own names naming a victim-zone host + forged glue for it, victim CNAME, victim-zone SOA; plus the systematic kinds record type {A, NS+glue, SOA} x OWNER {inside the hostile zone, hostile apex, parent apex, grandparent apex (= every strict ancestor up to the root), sibling, victim apex, unrelated TLD}) x response mode {append; on graphs near the plain one (thorough: all single-server graphs) also: genuine records dropped with NOERROR / with NXDOMAIN, AA bit flipped, genuine records re-owned to the victim} x section {answer, authority, additional} added to EVERY response \
          x main query (cold, and - when the hostile zone is the one holding the queried name - also after a warm-up query for another name of that zone, i.e. with every ancestor's pool already in the name-server cache), followed on the same recursor by 3-4 follow-up queries for names outside the hostile subtree; thorough adds all unordered pairs of injections on the plain graph and on every graph that differs from it in at most one zone's NS style; \
          (F) every filter configuration the builder accepts out of deny_server {none, 6.6.7.0/24, 0.0.0.0/0} x allow_server {none, 6.6.7.1/32, 11.0.0.0/8} x deny_answers {none, 6.6.8.0/24, 0.0.0.0/0} x allow_answers {none, 6.6.8.1/32, 12/8+11/8} (quick: one filter at its default; thorough: the full product, 49) x hostile zone {ROOT, t., l.t.} x filter-relevant injections x 5 queries (each asked twice), judged against the documented deny/allow table; \
          (C) lame kinds {REFUSED, upward referral, self referral, empty NOERROR, timeout} x zone x {1 server, 2 servers both lame, 2 servers first lame}; \
@@ -1405,10 +1473,27 @@ fn main() {
         if !ref_runs[ri].steps.iter().any(|s| s.log.iter().any(|e| ips.contains(&e.ip))) {
             continue;
         }
-        let near_plain = d.spec.nserv == 1 && d.spec.style.iter().filter(|x| **x != 0).count() <= 1;
-        for k in 0..KINDS.len() {
-            // quick: the two newest record-type kinds only on the graphs near the plain one
+        let deviations = d.spec.style.iter().filter(|x| **x != 0).count();
+        let near_plain = d.spec.nserv == 1 && deviations <= 1;
+        // quick: hostile cases on the plain graph and the graphs one NS style away from it (all
+        // graphs run honestly; the full graph product x injections is left to thorough)
+        if !thorough && deviations > 1 {
+            continue;
+        }
+        for k in 0..n_kinds() {
+            if !kind_exists(*hz, k) {
+                continue;
+            }
+            // quick: the record-type kinds 10-11 and the (rtype x owner) kinds only near the plain graph
             if !thorough && !near_plain && k >= 10 {
+                continue;
+            }
+            // quick: the (rtype x owner) kinds on the plain graph only
+            if !thorough && k >= FIXED_KINDS && deviations != 0 {
+                continue;
+            }
+            // thorough: the (rtype x owner) kinds on single-server graphs
+            if k >= FIXED_KINDS && d.spec.nserv != 1 {
                 continue;
             }
             for s in 0..SECTIONS.len() {
@@ -1416,6 +1501,10 @@ fn main() {
                 // the hostile servers ALTER their genuine response instead of only adding to it
                 if d.spec.nserv == 1 && (thorough || near_plain) {
                     for mode in 1..=3 {
+                        // (rtype x owner) kinds: the two "genuine records dropped" modes
+                        if k >= FIXED_KINDS && mode == 3 {
+                            continue;
+                        }
                         jobs.push((ri, vec![(k, s)], mode));
                     }
                 }
@@ -1426,7 +1515,7 @@ fn main() {
             jobs.push((ri, vec![], 4));
         }
         if thorough && near_plain {
-            let all: Vec<(usize, usize)> = (0..KINDS.len()).flat_map(|k| (0..SECTIONS.len()).map(move |s| (k, s))).collect();
+            let all: Vec<(usize, usize)> = (0..FIXED_KINDS).flat_map(|k| (0..SECTIONS.len()).map(move |s| (k, s))).collect();
             for a in 0..all.len() {
                 for b in a + 1..all.len() {
                     jobs.push((ri, vec![all[a], all[b]], 0));
